@@ -1,4 +1,5 @@
 import Rivaas.Spec.ErrFmt
+import Rivaas.Lemmas.C19Accept
 /-
 C06 — Error responses conform to the selected formatter. Property theorems.
 All statements quantify over every error value (any wrapping depth, any layer implementing any subset
@@ -534,7 +535,7 @@ theorem select_is_candidate (opts : List Opt) (ans : Bytes) : selectFormatter (m
     the offers, and otherwise it is an offer the client accepts -/
 def AcceptsContract (offers : List Bytes) (accept : Option Bytes) (ans : Bytes) : Prop :=
   ∀ ranges, parseAcceptHdr accept = some ranges →
-    (ans = [] → ∀ o ∈ offers, clientAccepts ranges o = false) ∧
+    (ans = [] → ∀ o ∈ offers, acceptAmbiguous ranges o = false → clientAccepts ranges o = false) ∧
     (ans ≠ [] → ans ∈ offers ∧ clientAccepts ranges ans = true)
 
 theorem lemma_negotiated (m : List (Bytes × Fmt)) (d : Bytes) (all : List Fmt) (accept : Option Bytes) (ans : Bytes)
@@ -551,12 +552,18 @@ theorem lemma_negotiated (m : List (Bytes × Fmt)) (d : Bytes) (all : List Fmt) 
     simp only
     split
     · exact hgen
+    split
+    · exact hgen
+    rename_i hamb
     by_cases ha : ans = []
     · -- no offer is acceptable: the default decides
       have hacc : m.filter (fun kv => clientAccepts ranges kv.1) = [] := by
         rw [List.filter_eq_nil_iff]
         intro kv hkv
-        simpa using hc1 ha kv.1 (List.mem_map.mpr ⟨kv, hkv, rfl⟩)
+        have hna : acceptAmbiguous ranges kv.1 = false := by
+          simp only [List.any_eq_true, not_exists, not_and, Bool.not_eq_true] at hamb
+          exact hamb kv hkv
+        simpa using hc1 ha kv.1 (List.mem_map.mpr ⟨kv, hkv, rfl⟩) hna
       simp only [hacc, List.isEmpty_nil, Bool.not_true, Bool.false_eq_true, if_false]
       by_cases hd : d.isEmpty = true
       · simp only [hd, if_true]; exact hgen
@@ -625,6 +632,89 @@ theorem negotiated_is_accepted_or_default (opts : List Opt) (accept : Option Byt
     simpa [mkCfg, applyOpt, defaultCfg] using this
   · exact hcand
 
+/-! ### the `Accepts` contract is a theorem for C19's model of `router.Context.Accepts` -/
+
+/-- a configured media type the declarative Accept oracle can read as it stands: `type/subtype` (or a documented
+    short name), no parameters -/
+def PlainOffer (o : Bytes) : Prop := (AcceptSpec.mediaOffer o).isSome = true ∧ mtCore o = o
+
+theorem lemma_specOf_plain (o : Bytes) (h : PlainOffer o) : specOf o = C19.spOf true o := by
+  unfold specOf C19.spOf C19.spMedia
+  rw [h.2]
+  rfl
+
+theorem lemma_plain_ne_nil (o : Bytes) (h : PlainOffer o) : o ≠ [] := by
+  intro e
+  subst e
+  have := h.1
+  revert this
+  decide
+
+/-- with no preference stated (`rs = []`) `Accepts` answers its first offer -/
+theorem lemma_head_contract (offers : List Bytes) (hne : offers ≠ []) (hpl : ∀ o ∈ offers, PlainOffer o) :
+    (offers.headD [] = [] → ∀ o ∈ offers, acceptAmbiguous [] o = false → clientAccepts [] o = false) ∧
+    (offers.headD [] ≠ [] → offers.headD [] ∈ offers ∧ clientAccepts [] (offers.headD []) = true) := by
+  cases offers with
+  | nil => exact absurd rfl hne
+  | cons o rest =>
+    have ho : o ≠ [] := lemma_plain_ne_nil o (hpl o (by simp))
+    refine ⟨fun h => absurd h ho, fun _ => ⟨by simp, by simp [clientAccepts]⟩⟩
+
+/-- **the `Accepts` contract holds of the modelled `c.Accepts`** (C19's model of router/accept.go, via C19's
+    `lemma_rel`: the answer is an offer of maximal strictly positive quality, or empty when none has one): for
+    every Accept header, every non-empty list of plain configured media types in any order, and every
+    `strconv.ParseFloat` satisfying C19's `PFContract` -/
+theorem accepts_contract_plain (pf : Accept.PF) (hpf : C19.PFContract pf) (accept : Option Bytes) (offers : List Bytes)
+    (hne : offers ≠ []) (hpl : ∀ o ∈ offers, PlainOffer o) :
+    AcceptsContract offers accept (acceptsOf pf accept offers) := by
+  intro rs hp
+  have hoe : offers.isEmpty = false := by simpa using hne
+  -- the answer when the parser sees no range at all
+  have hnone : ∀ (header : Bytes), (header.isEmpty = true ∨ Accept.parseAccept pf header = []) →
+      Accept.answer pf { kind := .accept, header := header, offers := offers } = offers.headD [] := by
+    intro header hh
+    unfold Accept.answer
+    simp only [hoe, Bool.false_eq_true, if_false]
+    rcases hh with hh | hh
+    · simp [hh]
+    · by_cases he : header.isEmpty = true
+      · simp [he]
+      · simp [he, hh, Accept.acceptsWith]
+  cases accept with
+  | none =>
+    have hrs : rs = [] := by simpa [parseAcceptHdr] using hp.symm
+    subst hrs
+    have : acceptsOf pf none offers = offers.headD [] := hnone [] (Or.inl rfl)
+    rw [this]
+    exact lemma_head_contract offers hne hpl
+  | some h =>
+    have hr : AcceptSpec.ranges true h = some rs := hp
+    have hparse := C19.lemma_parseAccept pf hpf true h rs hr
+    by_cases hrs : rs = []
+    · subst hrs
+      have : acceptsOf pf (some h) offers = offers.headD [] := hnone h (Or.inr (by simpa using hparse))
+      rw [this]
+      exact lemma_head_contract offers hne hpl
+    · have hrel := C19.lemma_rel pf hpf { kind := .accept, header := h, offers := offers } rs
+        (by simpa using hr) hrs hne (by
+          intro o ho
+          simpa [C19.offerOK] using (hpl o ho).1)
+      have hans : acceptsOf pf (some h) offers = Accept.answer pf { kind := .accept, header := h, offers := offers } := rfl
+      rw [hans]
+      have hrse : rs.isEmpty = false := by simpa using hrs
+      rcases hrel with ⟨h0, hall⟩ | ⟨hn, hmem, hq, _⟩
+      · refine ⟨fun _ o ho hna => ?_, fun hn => absurd h0 hn⟩
+        have hmin := hall o ho
+        simp only [beq_self_eq_true] at hmin
+        rw [← lemma_specOf_plain o (hpl o ho)] at hmin
+        simp only [acceptAmbiguous, hmin, beq_self_eq_true, Bool.and_true, decide_eq_false_iff_not, Nat.not_lt,
+          Nat.le_zero_eq] at hna
+        simp [clientAccepts, hrse, hna]
+      · refine ⟨fun h0 => absurd h0 hn, fun _ => ⟨hmem, ?_⟩⟩
+        simp only [beq_self_eq_true] at hq
+        rw [← lemma_specOf_plain _ (hpl _ hmem)] at hq
+        simp [clientAccepts, hq]
+
 /-! ### the response -/
 
 theorem lemma_overWire (w : Wire) (status : Nat) (ct : Bytes) (body : Json)
@@ -682,6 +772,35 @@ theorem fail_meets_spec (env : Env) (opts : List Opt) (accept : Option Bytes) (a
     right
     simp only [beq_self_eq_true, Bool.true_and, List.any_eq_false] at hk
     simpa using hk _ hal
+
+/-- the contract only speaks about membership: the order in which the map iteration produced the offers is
+    immaterial -/
+theorem lemma_contract_perm (o₁ o₂ : List Bytes) (h : o₁.Perm o₂) (accept : Option Bytes) (ans : Bytes)
+    (hc : AcceptsContract o₁ accept ans) : AcceptsContract o₂ accept ans := by
+  intro rs hp
+  obtain ⟨h1, h2⟩ := hc rs hp
+  exact ⟨fun ha o ho => h1 ha o (h.mem_iff.mpr ho), fun hn => ⟨h.mem_iff.mp (h2 hn).1, (h2 hn).2⟩⟩
+
+/-- **Main theorem with the negotiation inside the model** — no assumption about `Accepts` left: for every
+    error value, option list, Accept header, iteration order of the formatter map, wire, chain position and call,
+    with plain configured media types and outside K06c, the response of `failN` (whose `c.Accepts` is C19's model of
+    router/accept.go) satisfies the whole C06 oracle. `PFContract` is C19's contract for `strconv.ParseFloat`. -/
+theorem failN_meets_spec (pf : Accept.PF) (hpf : C19.PFContract pf) (env : Env) (opts : List Opt)
+    (accept : Option Bytes) (order : List Bytes) (w : Wire) (pos : Nat) (call : Call)
+    (hperm : order.Perm ((mkCfg opts).formatters.map (·.1)))
+    (hpl : ∀ o ∈ order, PlainOffer o)
+    (hk : knownK06c w opts accept call = false) :
+    specOK opts accept pos call (failN pf env (mkCfg opts) accept order w pos call) = true := by
+  unfold failN
+  apply fail_meets_spec env opts accept _ w pos call _ hk
+  apply lemma_contract_perm order _ hperm
+  by_cases hne : order = []
+  · subst hne
+    intro rs _
+    have : acceptsOf pf accept [] = [] := by simp [acceptsOf, Accept.answer]
+    rw [this]
+    exact ⟨fun _ o ho => absurd ho (List.not_mem_nil), fun hn => absurd rfl hn⟩
+  · exact accepts_contract_plain pf hpf accept order hne hpl
 
 /-- on a recorder (and for every status that may carry a body) there is no exclusion at all -/
 theorem fail_meets_spec_recorder (env : Env) (opts : List Opt) (accept : Option Bytes) (ans : Bytes)
@@ -761,9 +880,9 @@ def wCall : Call := .helper .notFound (some wBoom)
 example : AcceptsContract ((mkCfg wNeg).formatters.map (·.1)) (some "application/vnd.api+json".toList)
     "application/vnd.api+json".toList := by
   intro ranges h
-  have : ranges = [{ typ := "application".toList, sub := "vnd.api+json".toList, q := 1000 }] := by
+  have : ranges = [{ value := "application/vnd.api+json".toList, q := 1000 }] := by
     have h' : parseAcceptHdr (some "application/vnd.api+json".toList) =
-        some [{ typ := "application".toList, sub := "vnd.api+json".toList, q := 1000 }] := by decide
+        some [{ value := "application/vnd.api+json".toList, q := 1000 }] := by decide
     rw [h'] at h
     exact (Option.some.inj h).symm
   subst this
@@ -772,6 +891,16 @@ example : AcceptsContract ((mkCfg wNeg).formatters.map (·.1)) (some "applicatio
 example : (fail wEnv (mkCfg wNeg) "application/vnd.api+json".toList .recorder 1 wCall).contentType = ctJSONAPI := by decide
 example : (fail wEnv (mkCfg wNeg) "application/vnd.api+json".toList .recorder 1 wCall).status = 404 := by decide
 example : knownK06c .server [] none (.failStatus 404 none) = false := by decide
+
+-- non-vacuity of `failN_meets_spec`: plain offers in map order, `PFContract`, and what the modelled `Accepts` answers
+def wPF : Accept.PF := fun raw => if raw = ['0', '.'] then some 0 else if raw = ['1', '.'] then some 1000000 else none
+example : C19.PFContract wPF := ⟨by decide, by decide⟩
+example : PlainOffer "application/json".toList ∧ PlainOffer "application/vnd.api+json".toList := by
+  unfold PlainOffer; decide
+example : acceptsOf wPF (some "application/json;q=0, */*;q=0.5".toList) ["application/json".toList, "application/vnd.api+json".toList]
+    = "application/vnd.api+json".toList := by decide
+example : (failN wPF wEnv (mkCfg wNeg) (some "application/json;q=0, */*;q=0.5".toList)
+    ["application/vnd.api+json".toList, "application/json".toList] .recorder 1 wCall).contentType = ctJSONAPI := by decide
 
 /-- K06, as shipped: `NotFound(err)` with the default RFC 9457 formatter answered
     `Content-Type: application/json; charset=utf-8` -/
